@@ -57,15 +57,26 @@ def random_stream(rng, kind):
             elif ty in (0x32, 0x33) and u < 0.9:
                 # a downlink format that does not go with the frame type (the readers drop these as incomplete)
                 body[7] = (rng.choice([0, 4, 5, 11] if ty == 0x33 else [16, 17, 18, 19, 20, 21, 24]) << 3) | (body[7] & 7)
+            if rng.random() < 0.4:
+                # a constant mined from the library source planted in the record: at the start of the time stamp, of the signal
+                # level, of the message, or anywhere
+                body = gen.plant(rng, body, 0, len(body), sub=rng.choice(["", "tcpclient", "tcpclient"]), aligned=(0, 6, 7))
             frs.append({"ty": ty, "body": body})
         elif kind == "raw":
             n = rng.choice([7, 14])
-            t = bytes(rng.randrange(256) for _ in range(n)).hex()
+            raw = [rng.randrange(256) for _ in range(n)]
+            if rng.random() < 0.3:
+                raw = gen.plant(rng, raw, 0, n, sub=rng.choice(["", "tcpclient"]))
+            t = bytes(raw).hex()
             t = "".join(c.upper() if rng.random() < 0.5 else c for c in t)
             frs.append({"text": [ord(c) for c in t], "sep": rng.choice([[10], [13, 10], [], [32, 10]])})
         else:
             pl = [36 if rng.random() < 0.15 else rng.randrange(256) for _ in range(14)]
-            frs.append({"pl": pl, "tail": [36 if rng.random() < 0.15 else rng.randrange(256) for _ in range(9)]})
+            tail = [36 if rng.random() < 0.15 else rng.randrange(256) for _ in range(9)]
+            if rng.random() < 0.3:
+                both = gen.plant(rng, pl + tail, 0, 23, sub=rng.choice(["", "tcpclient"]))
+                pl, tail = both[:14], both[14:]
+            frs.append({"pl": pl, "tail": tail})
     return frs
 
 
